@@ -3,8 +3,9 @@ Writes <outdir>/<Name>.lean (only when changed, to keep lake incremental) and <o
 import importlib, json, os, sys
 sys.path.insert(0, os.path.dirname(os.path.abspath(__file__)))
 import py2lean
+import structure
 
-MODULES = ["targets_leaves", "targets_comb", "targets_bisect", "targets_misc", "targets_dist"]
+MODULES = ["targets_leaves", "targets_comb", "targets_bisect", "targets_misc", "targets_dist", "targets_params"]
 
 def main(repo="/repo", outdir=None):
     here = os.path.dirname(os.path.abspath(__file__))
@@ -19,6 +20,13 @@ def main(repo="/repo", outdir=None):
         if old != res["text"]:
             open(path, "w").write(res["text"])
         report[mod.NAME] = {"errors": res["errors"], "changed": old != res["text"], "targets": [t.name for t in mod.TARGETS]}
+    importlib.reload(structure)
+    for name, res in structure.generate(repo).items():  # class table (data) + the wrapper's two inner checks
+        path = os.path.join(outdir, name + ".lean")
+        old = open(path).read() if os.path.exists(path) else None
+        if old != res["text"]:
+            open(path, "w").write(res["text"])
+        report[name] = {"errors": res["errors"], "changed": old != res["text"], "targets": res["targets"]}
     import py2ast, targets_ast
     importlib.reload(py2ast); importlib.reload(targets_ast)
     res = py2ast.generate_ast(repo, targets_ast.SPECS)
